@@ -281,6 +281,7 @@ R.contract(
         "implies(delivery != QuicDeliveryState.ACKED, self.reset_pending and self.is_finished == old(self.is_finished))",
     ],
     prop=["C10"],
+    frame=True,  # OPAQUE_CALL discharge: see contracts/quic_handlers.py
 )
 
 
@@ -342,6 +343,7 @@ R.contract(
         "implies(live and not acked, self._buffer_start == old(self._buffer_start) and self.is_finished == old(self.is_finished) and self._acked_fin == old(self._acked_fin) and forall(lambda x: self._acked.gview[x] == old(self._acked.gview)[x]))",
     ],
     prop=["C10", "C01"],
+    frame=True,  # OPAQUE_CALL discharge: see contracts/quic_handlers.py
 )
 
 R.contract(
